@@ -186,10 +186,12 @@ def judge_texts(texts, known, summ, chunk_size=400):
         count_arms(rec["t1"], summ["arms"])
     sublist = sorted(subs.items())
     summ["subs"] += len(sublist)
-    nb = max(1, (len(cases) + chunk_size - 1) // chunk_size)
+    # (a last batch of less than a quarter of chunk_size is spread over the others: one JVM less)
+    nb = max(1, (len(cases) + chunk_size - 1 - chunk_size // 4) // chunk_size)
+    cper = (len(cases) + nb - 1) // nb
     per = (len(sublist) + nb - 1) // nb if sublist else 0
     for b in range(nb):
-        r = trace_batch(known, cases[b * chunk_size:(b + 1) * chunk_size], sublist[b * per:(b + 1) * per] if per else [])
+        r = trace_batch(known, cases[b * cper:(b + 1) * cper], sublist[b * per:(b + 1) * per] if per else [])
         summ["trace"][0] += r["tlc"][0]
         summ["trace"][1] += r["tlc"][1]
         summ["trace"][2] += r["tlc"][2]
